@@ -41,7 +41,7 @@ def run(tier, seed):
                                 "stderr": se, "broken": ["harness exit %d" % rc]}, no_input=True)
         return chk.finish(proof)
     gv.standard_flow(chk, REQ_RUN, cases, proof, "C17")
-    scratch = gv.os.path.join(gv.BUILD, "scratch", "c17")
+    scratch = gv.os.path.join(gv.BUILD, "scratch", "c17" + ("-" + gv.OUT_TAG if getattr(gv, "OUT_TAG", "") else ""))
     left = []
     for d, _, fs in gv.os.walk(scratch):
         left += [gv.os.path.join(d, f) for f in fs if f.endswith(".spill")]
